@@ -8,8 +8,34 @@ import z3
 VERDICTS = ("proved", "refuted", "undecided")
 
 
+_sk = [0]
+
+
+def skolemize(g):
+    """replace universally quantified variables in positive positions of the goal by fresh constants
+    (equivalent for validity; spares the solver its own skolemisation inside a big negated formula)"""
+    if z3.is_quantifier(g) and g.is_forall():
+        vs = []
+        for i in range(g.num_vars()):
+            _sk[0] += 1
+            vs.append(z3.Const("sk!%d!%s" % (_sk[0], g.var_name(i)), g.var_sort(i)))
+        return skolemize(z3.substitute_vars(g.body(), *reversed(vs)))
+    if z3.is_and(g):
+        return z3.And(*[skolemize(c) for c in g.children()])
+    if z3.is_implies(g):
+        return z3.Implies(g.arg(0), skolemize(g.arg(1)))
+    if z3.is_or(g):
+        return z3.Or(*[skolemize(c) for c in g.children()])
+    return g
+
+
 def check_one(axioms, ob, timeout_ms):
     t0 = time.time()
+    try:
+        goal = skolemize(ob.goal)
+    except Exception:
+        goal = ob.goal
+    ob = type(ob)(ob.oid, ob.kind, ob.hyps, goal, ob.meta)
     # stage 1: quantifier-free hypotheses only (a weakening: unsat here is a proof); fast and robust
     from .state import has_quant
     s = z3.Solver()
@@ -59,6 +85,8 @@ def check_one(axioms, ob, timeout_ms):
     except Exception as e:
         return ("undecided", "z3:unknown(%s); no smt2: %s" % (why, e), time.time() - t0, None)
     notes = []
+    if os.environ.get("PYVC_FAST"):
+        return ("undecided", "z3:unknown(%s) (no CLI fallback: PYVC_FAST)" % why, time.time() - t0, None)
     for name, cmd in (("z3-new", ["z3-new", "-T:%d" % max(5, timeout_ms // 1000)]),
                       ("z3-4.8", ["/usr/bin/z3", "-T:%d" % max(5, timeout_ms // 1000)]),
                       ("cvc5", ["/usr/bin/cvc5", "--tlimit=%d" % timeout_ms])):
